@@ -75,6 +75,8 @@ struct C17 : Profile {
              "oa = vf(1);\nob = oa;\noc = vf(2);\not = tab(1, vf(3));\not2 = ot;\nou = tup(1, vf(4), \"x\");\nou2 = ou;\n";
     std::vector<std::string> body; for (auto& s : p.ast["body"]) body.push_back(print_stmt(s, 0));
     for (auto& t : object_statements(r, allowed, uniq)) body.insert(body.begin() + r.below(body.size() + 1), t + "\n");
+    // a table whose element expression is evaluated once per element and fails on a later evaluation: the objects already built belong to nobody else
+    if (r.chance(0.4)) { int id = ++p.fault_points; std::string st = "begin\n  " + std::string(r.chance(0.5) ? "ot = tab(3, vf(v.pt(" + std::to_string(id) + ", 25)));" : "ot3 = tab(2, tab(2, vf(v.pt(" + std::to_string(id) + ", 26))));") + "\nexception\nwhen others then\n  print \"tab failed\";\nend;\n"; body.insert(body.begin() + r.below(body.size() + 1), st); plan["tab_fault_point"] = id; }
     // a receiver that changes module after the call was compiled: the method of one module must never run on the object of another (last statement: the error is not catchable)
     if (r.chance(0.25)) { switch (r.below(3)) {
       case 0: body.push_back("mx = oa;\nfor mi in 1 to 2 loop\n  print mx.tag();\n  mx = og;\nend loop;\n"); break;
@@ -87,6 +89,7 @@ struct C17 : Profile {
     if (p.fault_points > 0 && fr.chance(0.5)) {
       static const struct { int code; const char* arg; const char* kind; } K[] = {{21, "", "rt_catchable"}, {23, "", "rt_catchable"}, {1, "MYERR", "rt_catchable"}, {22, "7", "rt_fatal"}, {25, "integer", "rt_fatal"}};
       int nf = (int)fr.range(1, 2);
+      if (plan.contains("tab_fault_point") && fr.chance(0.5)) { auto& f = K[fr.below(3)]; faults.push_back(json{{"point", plan["tab_fault_point"]}, {"visit", fr.range(2, 3)}, {"code", f.code}, {"arg", f.arg}, {"kind", f.kind}}); }
       for (int i = 0; i < nf; ++i) { auto& f = K[fr.below(5)]; faults.push_back(json{{"point", fr.range(1, p.fault_points)}, {"visit", fr.range(1, 3)}, {"code", f.code}, {"arg", f.arg}, {"kind", f.kind}}); }
     }
     plan["faults"] = faults;
